@@ -22,9 +22,15 @@ import (
 )
 
 // scripted activity oracle for address scanning
-type scriptedTF struct{ threshold byte }
+type scriptedTF struct {
+	threshold byte
+	fail      bool // fault: the activity lookup (a database query in the node) fails
+}
 
 func (s scriptedTF) AddressesActivity(addrs []cipher.Addresser) ([]bool, error) {
+	if s.fail {
+		return nil, errors.New("simulated failure of the address activity lookup")
+	}
 	out := make([]bool, len(addrs))
 	for i, a := range addrs {
 		h := sha256.Sum256([]byte(a.String()))
@@ -191,6 +197,12 @@ func (s *svcSim) doOp() (string, error) {
 			opts.XPub = s.xpubs[si]
 		}
 		var pw []byte
+		// never the default cipher (scrypt N=2^20: 1 GiB and seconds per lock); a wallet created
+		// unencrypted keeps this type for a later EncryptWallet
+		opts.CryptoType = crypto.CryptoTypeSha256Xor
+		if t.Chance("insecure-scrypt-type", 1, 4) {
+			opts.CryptoType = crypto.CryptoTypeScryptChacha20poly1305Insecure
+		}
 		switch t.Pick("create-enc", 4, 2, 1) {
 		case 1:
 			opts.Encrypt, opts.CryptoType, pw = true, crypto.CryptoTypeSha256Xor, s.pws[t.Int("pwi", 2)]
